@@ -13,5 +13,6 @@ CONSTANTS
   FreshModelPerCall = TRUE
   DefaultsUntouched = FALSE
   OrderedIteration = TRUE
+  SummaryStateless = TRUE
 INVARIANT Functional
 CHECK_DEADLOCK FALSE
